@@ -1,5 +1,6 @@
 import Driver.C18
 import Driver.C05
+import Driver.C01
 open Lean Driver
 
 def dispatch (j : Json) : R Json := do
@@ -8,6 +9,7 @@ def dispatch (j : Json) : R Json := do
   match p with
   | "C18" => Driver.C18.handle op j
   | "C05" => Driver.C05.handle op j
+  | "C01" => Driver.C01.handle op j
   | _ => throw s!"unknown property {p}"
 
 partial def loop (h : IO.FS.Stream) (out : IO.FS.Stream) : IO Unit := do
